@@ -24,6 +24,7 @@ INVARIANT NoSilentDropAtQuiescence
 INVARIANT OneActiveSession
 INVARIANT NoLeftovers
 INVARIANT MailboxExclusive
+INVARIANT NoLostInFlight
 INVARIANT SlotsRegistered
 INVARIANT WantsMatch
 CHECK_DEADLOCK FALSE
